@@ -350,12 +350,15 @@ def check_rows(sl, data, events_plain, events_arg, centers, neighbors, method, t
             sub = data[:, nb]
             r = ref_rdm_by_label(sub, events_plain, method)
             scale = 0.0
+            if r is not None and method == 'correlation' and \
+                    min(float(np.std(m)) for m in r[2]) < 2.0 ** -4:
+                # (nearly) constant mean pattern: the correlation distance is undefined /
+                # ill-conditioned; only row i == direct computation is compared (NaN == NaN)
+                r = None
             if r is not None:
                 table, _, means = r
                 scale = max(float(np.sum(np.square(m))) for m in means)
                 if method == 'correlation':
-                    if min(float(np.std(m)) for m in means) < 2.0 ** -4:
-                        raise Reject('constant pattern', 'degenerate:constant-pattern')
                     rt, at = 1e-8, 1e-10
                 elif method == 'poisson':
                     rt, at = 1e-9, 1e-11
